@@ -109,7 +109,13 @@ func initNewMultiColumnReader(segKey string, colFDs map[string]*os.File,
 	if writer.IsSegKeyUnrotated(segKey) {
 		allBmi, err = writer.GetBlockSearchInfoForKey(segKey)
 		if err != nil {
-			return nil, fmt.Errorf("InitSharedMultiColumnReaders: failed to get allBmi for unrotated segKey %s; err=%v", segKey, err)
+			// The segment can get rotated between the two calls above: it is then registered in the
+			// rotated metadata (rotation adds it there before removing the unrotated info).
+			var rotErr error
+			allBmi, _, rotErr = segmetadata.GetSearchInfoAndSummary(segKey)
+			if rotErr != nil {
+				return nil, fmt.Errorf("InitSharedMultiColumnReaders: failed to get allBmi for unrotated segKey %s; err=%v", segKey, err)
+			}
 		}
 	} else {
 		allBmi, _, err = segmetadata.GetSearchInfoAndSummary(segKey)
